@@ -13,6 +13,7 @@
 
 #include <chrono>
 #include <atomic>
+#include <thread>
 #include <vector>
 #include <algorithm>
 #include <typeinfo>
@@ -254,6 +255,8 @@ namespace sqf::runtime
 
         private:
             std::atomic<bool> m_evaluate_halt;
+            // the thread that holds the evaluation slot (m_evaluate_halt), if any
+            std::atomic<std::thread::id> m_evaluate_thread;
 
             void perform_evaluate()
             {
@@ -361,6 +364,7 @@ namespace sqf::runtime
             m_last_breakpoint_hit(~((size_t)0), {}),
             m_default_scope_key("default"),
             m_evaluate_halt(false),
+            m_evaluate_thread(std::thread::id()),
             m_configuration(config),
             m_runtime_timestamp(std::chrono::system_clock::now()),
             m_run_timestamp(m_runtime_timestamp),
